@@ -3,6 +3,8 @@ import Percival.Proofs.EQueue
 import Percival.Proofs.SeqMap
 import Percival.Proofs.MPool
 import Percival.Proofs.DsStep
+import Percival.Proofs.DsRun
+import Percival.Proofs.DsAns
 /-!
 # C12 — elastic array/queue, sequential pointer map and object pool refine their abstract models
 
@@ -389,5 +391,206 @@ example : (monRun {} (demoOps.zip ((runOps {} demoOps).2.map Out.ans))).length =
     ((runOps {} demoOps).2.map fun o => o.ans.live)[44]? = some (some 0) := by
   decide +kernel
 
+/-! ## Run level for the array, the map and the pool; the executable's runs refine the ideal objects
+
+`Proofs/DsRun.lean`.  `exec_eq_run` above, for the other three families, and — instantiating `ea_run_refines` …
+`mp_run_refines` at the run of the executable — "the ideal object admits everything the executable's component answers
+along the lines of a case, and ends as `abs` of the executable's component". -/
+
+/-- **Run level, array.**  Along a sequence of `ea_resize` / `ea_append` / `ea_shrink` / `ea_trunc` / `ea_get` / `ea_set` /
+`ea_getsize` / `ea_dup` lines on an existing array, the array in the executable's state is exactly that of `EArray.run`
+— the function `ea_run_refines` is about — over the projected operations `eaProject a m ops`: the projection `eaOpOf` of
+each line at the size the array has when the line is reached (`ea_resize n reclen seed` writes
+`patBytes seed (n * reclen - size)` into the grown part, so the projection is computed along the run).  The oracle is
+`EArray.run`'s with `live` lowered by one for every copy a successful `ea_dup` made (`eaDupFrees`: the harness frees it;
+`live` is a ghost counter that no decision of the model reads, `Proofs/DsRun.lean: ea_step_shift`).  Hypothesis: no
+step reports an access outside storage (excluded under `Inv` and the contract: `exec_ea_run_refines`). -/
+theorem exec_ea_run (ops : List Op) (s : DsStep.S) (a : EArray.EA) (hs : s.ea = some a)
+    (hfam : ∀ op ∈ ops, (eaOpOf a.size op).isSome)
+    (hno : ∀ x ∈ (EArray.run a (eaProject a s.m ops) s.m).1, x.2.st ≠ .oob) :
+    (runOps s ops).1.ea = some (EArray.run a (eaProject a s.m ops) s.m).2.1 ∧
+    (runOps s ops).1.m =
+      { (EArray.run a (eaProject a s.m ops) s.m).2.2 with
+        live := (EArray.run a (eaProject a s.m ops) s.m).2.2.live -
+                  eaDupFrees (EArray.run a (eaProject a s.m ops) s.m).1 } := by
+  have := ea_runOps ops s a 0 s.m hs (shift_zero _).symm hfam hno
+  refine ⟨this.1, ?_⟩
+  rw [this.2]
+  simp only [shift]
+  congr 1
+  omega
+
+/-- the projection on a concrete line sequence (`demoEaLines` on `demoA`): the array holds 12 bytes, `ea_resize 5 4`
+grows it to 20 (8 bytes of pattern), `ea_shrink 1 4` cuts it to 16, so `ea_resize 7 4` writes 12 bytes -/
+example : eaProject demoA demoS.m demoEaLines =
+    [.resize 5 ⟨4, by decide⟩ (patBytes 1 8), .exportdup ⟨1, by decide⟩, .shrink 1 ⟨4, by decide⟩,
+     .resize 7 ⟨4, by decide⟩ (patBytes 2 12), .get 0 ⟨4, by decide⟩, .append (patBytes 5 6) 2 ⟨3, by decide⟩, .truncate,
+     .set 1 ⟨4, by decide⟩ (patBytes 9 4), .getsize ⟨2, by decide⟩] := rfl
+/-- under an oracle that refuses everything the first resize fails, the array keeps its 12 bytes and the second
+`ea_resize` stands for a different operation (16 bytes of pattern) -/
+example : eaProject demoA Mem.refuseAll [.eaResize 5 4 1, .eaResize 7 4 2] =
+    [.resize 5 ⟨4, by decide⟩ (patBytes 1 8), .resize 7 ⟨4, by decide⟩ (patBytes 2 16)] := rfl
+example : ∀ op ∈ demoEaLines, (eaOpOf demoA.size op).isSome := by decide
+/-- the hypotheses hold on it; one copy is freed by the harness; the array ends with 34 bytes, also in the executable -/
+example : ((EArray.run demoA (eaProject demoA demoS.m demoEaLines) demoS.m).1.map (·.2.st)) = List.replicate 9 .ok ∧
+    eaDupFrees (EArray.run demoA (eaProject demoA demoS.m demoEaLines) demoS.m).1 = 1 ∧
+    (EArray.run demoA (eaProject demoA demoS.m demoEaLines) demoS.m).2.1.size = 34 ∧
+    ((runOps demoS demoEaLines).1.ea.map (·.size)) = some 34 := by
+  decide +kernel
+
+/-- **The executable's array refines the ideal byte array over whole runs**: `ea_run_refines` at the run of the
+executable.  From an array satisfying `Inv`, along array lines for which the caller keeps the contract (`ea_get` /
+`ea_set` inside the contents, `ea_append` of at most `dataMax` bytes — beyond that the harness passes a dummy
+buffer), the array in the executable's state is `EArray.run`'s final array, it satisfies `Inv`, and the ideal array
+started at `abs a` admits the whole observed trace and ends as `abs` of the executable's array.  (No `oob` hypothesis:
+an admitted trace has none.) -/
+theorem exec_ea_run_refines (ops : List Op) (s : DsStep.S) (a : EArray.EA) (hs : s.ea = some a)
+    (hfam : ∀ op ∈ ops, (eaOpOf a.size op).isSome) (h : EArray.Inv a)
+    (hc : EArray.Contracts a (eaProject a s.m ops) s.m) :
+    ∃ a', (runOps s ops).1.ea = some a' ∧ a' = (EArray.run a (eaProject a s.m ops) s.m).2.1 ∧ EArray.Inv a' ∧
+      eaAdmitAll (EArray.abs a) (EArray.run a (eaProject a s.m ops) s.m).1 = some (EArray.abs a') :=
+  ea_runOps_refines ops s a hs hfam h hc
+
+example : EArray.Inv demoA := ⟨by decide, by decide, by decide⟩
+example : EArray.Contracts demoA (eaProject demoA demoS.m demoEaLines) demoS.m := by decide +kernel
+/-- an `ea_get` beyond the contents breaks the contract (and is answered `skip`: `exec_ea_skip`) -/
+example : ¬ EArray.Contracts demoA (eaProject demoA demoS.m [.eaGet 3 4]) demoS.m := by decide +kernel
+
+/-- **The executable's queue refines the ideal FIFO over whole runs**: `eq_run_refines` at the run of `exec_eq_run`. -/
+theorem exec_eq_run_refines (ops : List Op) (s : DsStep.S) (q : EQueue.EQ) (hs : s.eq = some q)
+    (hfam : ∀ op ∈ ops, (eqOpOf q.reclen.val op).isSome) (h : EQueue.QInv q)
+    (hc : EQueue.Contracts q (ops.filterMap (eqOpOf q.reclen.val)) s.m)
+    (hsmall : (q.offset + q.len + ops.length) * q.reclen.val ≤ EArray.SIZE_MAX) :
+    ∃ q', (runOps s ops).1.eq = some q' ∧ q' = (EQueue.run q (ops.filterMap (eqOpOf q.reclen.val)) s.m).2.1 ∧
+      EQueue.QInv q' ∧
+      eqAdmitAll (EQueue.abs q) (EQueue.run q (ops.filterMap (eqOpOf q.reclen.val)) s.m).1 = some (EQueue.abs q') :=
+  eq_runOps_refines ops s q hs hfam h hc hsmall
+
+example : EQueue.QInv demoQ := ⟨⟨by decide, by decide, by decide⟩, by decide⟩
+example : (∀ op ∈ demoEqLines, (eqOpOf demoQ.reclen.val op).isSome) ∧
+    EQueue.Contracts demoQ (demoEqLines.filterMap (eqOpOf demoQ.reclen.val)) demoQS.m ∧
+    (demoQ.offset + demoQ.len + demoEqLines.length) * demoQ.reclen.val ≤ EArray.SIZE_MAX ∧
+    ((runOps demoQS demoEqLines).1.eq.map (·.len)) = some 2 := by
+  decide +kernel
+
+/-- **Run level, map.**  Along a sequence of `sm_add` / `sm_get` / `sm_del` / `sm_min` lines on an existing map, the map
+and the oracle in the executable's state are exactly those of `SeqMap.run` — the function `sm_run_refines` is about —
+over the projected operations (`smOpOf`), as long as no step reports `oob` (an `assert` of `seqptrmap_add` after 2^63
+numbers, or an access outside storage; excluded under `MInv`: `exec_sm_run_refines`). -/
+theorem exec_sm_run (ops : List Op) (s : DsStep.S) (x : SeqMap.SM) (hs : s.sm = some x)
+    (hfam : ∀ op ∈ ops, (smOpOf op).isSome)
+    (hno : ∀ y ∈ (SeqMap.run x (ops.filterMap smOpOf) s.m).1, y.2.st ≠ .oob) :
+    (runOps s ops).1.sm = some (SeqMap.run x (ops.filterMap smOpOf) s.m).2.1 ∧
+    (runOps s ops).1.m = (SeqMap.run x (ops.filterMap smOpOf) s.m).2.2 :=
+  sm_runOps ops s x hs hfam hno
+
+example : demoSmLines.filterMap smOpOf = [.add 5, .add 6, .delete 0, .getmin, .get 1, .get 0] := rfl
+example : ∀ op ∈ demoSmLines, (smOpOf op).isSome := by decide
+/-- on the state after `sm_init`: numbers 0 and 1 issued, 0 deleted, minimum 1, pointer 6 under 1, NULL under 0 -/
+example : (demoMS.sm.map fun x => (SeqMap.run x (demoSmLines.filterMap smOpOf) demoMS.m).1.map
+      fun y => (y.2.st, y.2.num, y.2.ptr)) =
+    some [(.ok, 0, 0), (.ok, 1, 0), (.ok, 0, 0), (.ok, 1, 0), (.ok, 0, 6), (.ok, 0, 0)] := by
+  decide +kernel
+
+/-- **The executable's map refines the ideal map over whole runs**: `sm_run_refines` at the run of the executable, for
+lines within `OpOk` (stored pointers non-NULL and below 2^64) and fewer than 2^63 numbers. -/
+theorem exec_sm_run_refines (ops : List Op) (s : DsStep.S) (x : SeqMap.SM) (hs : s.sm = some x)
+    (hfam : ∀ op ∈ ops, (smOpOf op).isSome) (h : SeqMap.MInv x) (hok : ∀ op ∈ ops, OpOk op)
+    (hq : (x.q.offset + x.q.len + ops.length) * 8 ≤ EArray.SIZE_MAX)
+    (hn : x.offset + x.len + ops.length ≤ SeqMap.INT64_MAX) :
+    ∃ x', (runOps s ops).1.sm = some x' ∧ x' = (SeqMap.run x (ops.filterMap smOpOf) s.m).2.1 ∧ SeqMap.MInv x' ∧
+      smAdmitAll (SeqMap.abs x) (SeqMap.run x (ops.filterMap smOpOf) s.m).1 = some (SeqMap.abs x') :=
+  sm_runOps_refines ops s x hs hfam h hok hq hn
+
+/-- the map of the state after `sm_init` exists, satisfies `MInv`, and the side conditions hold for `demoSmLines` -/
+example : ∃ x, demoMS.sm = some x ∧ SeqMap.MInv x ∧ (∀ op ∈ demoSmLines, OpOk op) ∧
+    (x.q.offset + x.q.len + demoSmLines.length) * 8 ≤ EArray.SIZE_MAX ∧
+    x.offset + x.len + demoSmLines.length ≤ SeqMap.INT64_MAX := by
+  have hspec := SeqMap.init_spec ({} : DsStep.S).m
+  have hsome : (SeqMap.init ({} : DsStep.S).m).1.isSome = true := by decide +kernel
+  have hst : demoMS.sm = (SeqMap.init ({} : DsStep.S).m).1 := by
+    simp only [demoMS, stepOp]
+    rcases SeqMap.init ({} : DsStep.S).m with ⟨_ | x, m'⟩ <;> rfl
+  rcases hi : SeqMap.init ({} : DsStep.S).m with ⟨_ | x, m'⟩
+  · rw [hi] at hsome; cases hsome
+  · rw [hi] at hspec hst
+    obtain ⟨hinv, _, ho, hl, hqo, hql, _⟩ := hspec
+    refine ⟨x, hst, hinv, by decide, ?_, ?_⟩
+    · rw [hqo, hql]; decide
+    · rw [ho, hl]; decide
+
+/-- **Run level, pool.**  Along a sequence of `mp_malloc` / `mp_free` / `mp_freenth` lines, the pool, the oracle and the
+harness' list of objects in use in the executable's state are exactly those of `MPool.run objSize` — the function
+`mp_run_refines` is about — over the projected operations `mpProject p u m ops`: the projection `mpOpOf` of each line
+with the objects held when the line is reached (`mp_freenth j` frees the held object with the `(j mod count)`-th
+smallest id; `mp_free` of an object not held and `mp_freenth` with nothing held are answered `skip`, change nothing
+and drop out of the projection). -/
+theorem exec_mp_run (ops : List Op) (s : DsStep.S) (hfam : ∀ op ∈ ops, isMpLine op = true) :
+    (runOps s ops).1.mp = (MPool.run objSize s.mp (mpProject s.mp s.inUse s.m ops) s.m).2.1 ∧
+    (runOps s ops).1.m = (MPool.run objSize s.mp (mpProject s.mp s.inUse s.m ops) s.m).2.2 ∧
+    (runOps s ops).1.inUse = mpInUseAll s.inUse (MPool.run objSize s.mp (mpProject s.mp s.inUse s.m ops) s.m).1 :=
+  mp_runOps ops s hfam
+
+example : mpProject (MPool.init 4) [] ({} : DsStep.S).m demoMpLines = [.malloc, .malloc, .free 1, .malloc, .free 0] := rfl
+/-- `mp_freenth` on a harness holding the objects 1 and 0 (any pool, any oracle): `3 mod 2 = 1`, the second smallest -/
+example (p : MPool.MP) (m : Mem) :
+    mpProject p [1, 0] m [.mpFreenth 3, .mpFree 7, .mpFreenth 0] = [.free 1, .free 0] := by
+  simp [mpProject, mpOpOf, mpInUse, List.mergeSort, List.MergeSort.Internal.splitInTwo]
+example : ∀ op ∈ demoMpLines, isMpLine op = true := by decide
+/-- the objects handed out along it (the third `malloc` is served from the cache); object 1 is held at the end -/
+example : ((MPool.run objSize (MPool.init 4) (mpProject (MPool.init 4) [] ({} : DsStep.S).m demoMpLines) ({} : DsStep.S).m).1.map
+      (·.2.obj)) = [some 0, some 1, none, some 1, none] ∧
+    (runOps {} demoMpLines).1.inUse = [1] ∧ (runOps {} demoMpLines).1.mp.stack = [0] := by
+  decide +kernel
+
+/-- **The executable's pool refines "the set of objects in use" over whole runs**: `mp_run_refines` at the run of the
+executable.  From a state in the simulation relation `R` (in particular the initial state), along any pool lines: the
+ideal set admits the whole trace of the executable's pool — no object handed out twice, NULL only with a refused
+request — it ends as the harness' own list of objects in use, and `R` holds again.  The caller's side of the contract
+(only objects in use are freed) needs no hypothesis: `mpOpOf` only projects to frees of objects the harness holds. -/
+theorem exec_mp_run_refines (ops : List Op) (s : DsStep.S) (base : Int) (hfam : ∀ op ∈ ops, isMpLine op = true)
+    (h : MPool.R s.mp s.m s.inUse base) :
+    mpAdmitAll s.inUse (MPool.run objSize s.mp (mpProject s.mp s.inUse s.m ops) s.m).1 = some (runOps s ops).1.inUse ∧
+    MPool.R (runOps s ops).1.mp (runOps s ops).1.m (runOps s ops).1.inUse base :=
+  mp_runOps_refines ops s base hfam h
+
+example : MPool.R ({} : DsStep.S).mp ({} : DsStep.S).m ({} : DsStep.S).inUse 0 := MPool.init_R 4 _
+
+/-! ## The monitor reads what the model prints: `Out.ans` is read ∘ print
+
+`Driver/Ds.render o` is the tokens `Ds.l1Toks o` joined by single spaces, then ` | ` and the L2 part (by definition);
+`Driver/Dsmon.parseAns` is the reader `pmodel dsmon` applies to the tokens of the part before ` | `.
+`Proofs/DsAns.lean`: number printing and reading (`Nat.repr` / `Int.repr` / `String.toNat?` / `String.toInt?`), hex
+printing and reading, the `key=value` and `;` splitting — everything between the typed output and the token list. -/
+
+/-- **For every typed output `o` of the model, reading the L1 tokens it prints gives `o.ans`** — the `Ans` that
+`monitor_accepts_model` / `monitor_accepts_model_run` feed to the monitor — and cutting the L1 part of the printed line
+at the spaces gives back exactly these tokens (no token contains a space).  Not covered: that `Driver/Loop.loopMon`
+cuts the line with `String.splitOn " "` (a different splitting function than the `String.split ' '` of the statement)
+and that `tools/vlib.py` cuts at ` | `; `KAT/DsAns.lean` tests these on an output of every shape. -/
+theorem monitor_reads_printed_answer (o : Out) :
+    Driver.Dsmon.parseAns (Driver.Ds.l1Toks o) = o.ans ∧
+    Driver.Dsmon.splitCh ' ' (" ".intercalate (Driver.Ds.l1Toks o)) = Driver.Ds.l1Toks o ∧
+    Driver.Ds.render o =
+      " ".intercalate (Driver.Ds.l1Toks o) ++ (match Driver.Ds.l2Str o with | some s => " | " ++ s | none => "") :=
+  ⟨DsAns.parseAns_l1Toks o, DsAns.split_l1 o, rfl⟩
+
+/-- the tokens of a real line: `ok sz=3 al=4 rf=0 n=1 out=0102ff`, and a queue dump with an unreadable record -/
+example : Driver.Ds.l1Toks (.ea .ok 3 4 0 (some (1, [1, 2, 255])) { live := 3, req := [24, 12] }) =
+    ["ok", "sz=3", "al=4", "rf=0", "n=1", "out=0102ff"] := by decide +kernel
+example : Driver.Ds.l1Toks (.eq .ok 2 0 (.recs [some [1, 2], none]) { off := 1, sz := 6, al := 8, c := { live := 3, req := [] } }) =
+    ["ok", "len=2", "rf=0", "recs=0102;?"] := by decide +kernel
+
+/-- **Every case, at the level of printed tokens**: `monitor_accepts_model_run` with the answers read back from the
+tokens the model prints. -/
+theorem monitor_accepts_printed_run (ops : List Op) (hok : ∀ op ∈ ops, OpOk op)
+    (hlen : (ops.length : Int) ≤ SeqMap.INT64_MAX) :
+    monRun {} (ops.zip ((runOps {} ops).2.map fun o => Driver.Dsmon.parseAns (Driver.Ds.l1Toks o))) =
+      List.replicate ops.length none := by
+  have h : (fun o => Driver.Dsmon.parseAns (Driver.Ds.l1Toks o)) = Out.ans := funext DsAns.parseAns_l1Toks
+  rw [h]
+  exact monitor_accepts_model_run ops hok hlen
+
+example : ∀ op ∈ demoOps, OpOk op := by decide
 
 end Percival.C12
